@@ -10,14 +10,54 @@ MODULES = ['FeVerif.Props.C05']
 
 
 def flat_canon(flat):
-    return [(d['offset'], d['raw'].hex(), dc.header_fields(d['header']), repr(canon.canon(d['contents']))) for d in flat]
+    """Per message: what the caller held when the call that delivered it returned (results are values: run_decoder(own=True)
+    separately demands that the objects still show exactly this after every later call)."""
+    return [(d['offset'], d['raw'].hex(), d['header_snap'], d['contents_snap']) for d in flat]
 
 
-def one_stream(ctx, data, kinds, m, lines, pending, opts='random'):
+OWNERSHIP = {'ResultChanged': 'C05/returned-object-changes-after-its-call', 'ResultAliased': 'C05/returned-object-handed-out-twice'}
+
+
+def boundary_chunkings(data, ends, each):
+    """Chunk ends exactly at, one byte before and one byte after the last byte of the delivered messages: all of them at once
+    (one message per call) and, if `each`, every single one of them as the only cut."""
+    res = []
+    n = len(data)
+    for dlt in (0, -1, 1):
+        cuts = sorted({e + dlt for e in ends if 0 < e + dlt < n})
+        if cuts:
+            res.append([data[a:b] for a, b in zip([0] + cuts, cuts + [n])])
+        if each:
+            for e in ends:
+                if 0 < e + dlt < n:
+                    res.append([data[:e + dlt], data[e + dlt:], b''])       # and one more (empty) call afterwards
+    return res
+
+
+def self_consistent(ctx, flat, replay, rb):
+    """Every delivered entry describes ONE message: the header is the one in its raw bytes, the raw bytes are header + payload."""
+    for k, d in enumerate(flat):
+        h = d['header_snap']
+        if rb:
+            raw = d['raw']
+            if len(raw) != 24 + h[6] or dc.header_fields_from_raw(raw) != h:
+                ctx.violation('C05/entry-mixes-messages',
+                              'message %d%s: returned header (reserved, crc, protocol, version, type, sequence, size, source) = %s '
+                              'but its returned raw bytes are %d bytes %s...' % (
+                                  k, ' at %d' % d['offset'] if 'offset' in d else '', h, len(raw), raw[:24].hex()), replay)
+                return False
+    return True
+
+
+def one_stream(ctx, data, kinds, m, lines, pending, opts='random', directed=False):
     if opts == 'random':
         opts = dc.decoder_options(ctx.rng) if ctx.rng.random() < 0.7 else None      # one decoder configuration per stream
-    replay0 = {'stream': data.hex(), 'tokens': kinds, 'max_payload': m, 'options': opts}
+    replay0 = {'stream': data.hex(), 'tokens': kinds, 'max_payload': m, 'options': opts, 'directed': directed}
     chs = gen.chunkings(ctx.rng, data, ctx.thorough)
+    big = len(data) > 6000
+    if big:
+        # no byte-by-byte / 7-byte / 24-byte runs of very large streams (the boundary chunkings below stand in)
+        chs = [chs[0], [data[i:i + 4096] for i in range(0, len(data), 4096)]] + chs[2:-2] + [[data[i:i + 1000] for i in range(0, len(data), 1000)]]
     if len(data) <= (160 if ctx.thorough else 90):
         # all contiguous (prefix, next chunk) pairs: [data[:i], data[i:j]] -- with state equality after every
         # prefix this covers all partitions by induction
@@ -26,20 +66,32 @@ def one_stream(ctx, data, kinds, m, lines, pending, opts='random'):
         for i in range(0, n + 1, step):
             chs.append([data[:i], data[i:]])
     ref = None
+    # one message per call, and chunk ends one byte before / after every message end (from what one call delivers)
+    _, flat1, err1, _ = dc.run_decoder([data], m, opts=opts)
+    ends = [d['offset'] + len(d['raw']) for d in flat1] if err1 is None else []
+    bnd = boundary_chunkings(data, ends, directed or ctx.thorough)
+    ctx.count('boundary_chunkings', len(bnd))
     forms = [(c, 'bytes', False) for c in chs]
     # the other documented / plausible call forms of the same chunkings: single bytes as ints, caller-owned bytearrays
     forms += [(chs[1], 'bytes', True), (chs[1], 'ba_reuse', False)]
     for c in chs[2:5]:
         forms += [(c, 'ba_wipe', False), (c, 'ba_reuse', False)]
+    forms += [(c, 'bytes', False) for c in bnd]
+    forms += [(c, f, False) for c in bnd[:3] for f in ('ba_reuse', 'bytearray')]
     for chunks, form, as_ints in forms:
-        calls, flat, err, _ = dc.run_decoder(chunks, m, form=form, as_ints=as_ints, opts=opts)
+        calls, flat, err, _ = dc.run_decoder(chunks, m, form=form, as_ints=as_ints, opts=opts, own=True)
         replay = dict(replay0, chunks=[c.hex() for c in chunks], form=form, as_ints=as_ints)
         ctx.count('form_' + form + ('_ints' if as_ints else ''))
         if err is not None:
+            if err.split(':')[0] in OWNERSHIP:
+                ctx.violation(OWNERSHIP[err.split(':')[0]], err, replay)
+                return
             if err.startswith('SharedResult'):
                 ctx.violation('C05/result-list-shared-between-calls', err, replay)
                 return
             ctx.violation('C05/decoder-raised', 'on_data raised %s' % err, replay)
+            return
+        if not self_consistent(ctx, flat, replay, True):
             return
         fc = flat_canon(flat)
         final = calls[-1].split('|', 1)[1] if calls else '0|0|0'
@@ -58,6 +110,8 @@ def one_stream(ctx, data, kinds, m, lines, pending, opts='random'):
                 b = [(x[0], len(x[1]) // 2) for x in fc]
                 if a == b:
                     what = 'payload-values' if [x[:3] for x in fc] == [x[:3] for x in ref[0]] else 'headers-or-bytes'
+                    if what == 'headers-or-bytes' and [x[:2] for x in fc] == [x[:2] for x in ref[0]]:
+                        what = 'headers'
                 ctx.violation('C05/chunking-changes-' + what,
                               'one call gives %s, chunking %s gives %s' % (a, [len(c) for c in chunks][:12], b), replay)
                 return
@@ -65,9 +119,38 @@ def one_stream(ctx, data, kinds, m, lines, pending, opts='random'):
                 ctx.violation('C05/chunking-changes-final-state',
                               'final (buffered|header cached|processed) %s vs %s' % (ref[1], final), replay)
                 return
-        lines.append('pydec %d %s' % (m, ','.join(c.hex() or '-' for c in chunks) or '='))
-        pending.append((replay, calls))
-        ctx.case(lines[-1], nontrivial=bool(flat))
+        line = 'pydec %d %s' % (m, ','.join(c.hex() or '-' for c in chunks) or '=')
+        if not big or chunks is chs[0] or (bnd and chunks is bnd[0] and form == 'bytes'):
+            # (very large streams: the model replays one call and one-message-per-call; the other chunkings are compared with
+            # those on the implementation)
+            lines.append(line)
+            pending.append((replay, calls))
+        ctx.case(line, nontrivial=bool(flat))
+    # the other settings of return_bytes / return_offset: same headers, payload values, and whichever of raw bytes / offsets is
+    # returned, under one call, one byte per call, a random partition and the message-boundary chunkings
+    other = [(True, False), (False, True), (False, False)]
+    full = None if (directed or ctx.thorough) else ctx.rng.choice(other)    # quick tier: byte by byte under one of the three
+    for rb, ro in other:
+        for chunks in (chs[:3] if full in (None, (rb, ro)) else chs[:1]) + bnd:
+            calls, flat, err, _ = dc.run_decoder(chunks, m, return_bytes=rb, return_offset=ro, opts=opts, own=True)
+            replay = dict(replay0, chunks=[c.hex() for c in chunks], form='bytes', as_ints=False, return_bytes=rb, return_offset=ro)
+            ctx.count('flags_bytes%d_offset%d' % (rb, ro))
+            if err is not None:
+                ctx.violation(OWNERSHIP.get(err.split(':')[0], 'C05/decoder-raised'), 'return_bytes=%s return_offset=%s: %s' % (rb, ro, err),
+                              replay)
+                return
+            if not self_consistent(ctx, flat, replay, rb):
+                return
+            got = [(d.get('offset'), d['raw'].hex() if rb else None, d['header_snap'], d['contents_snap']) for d in flat]
+            want = [(x[0] if ro else None, x[1] if rb else None, x[2], x[3]) for x in ref[0]]
+            if got != want:
+                ctx.violation('C05/chunking-changes-results-other-flags',
+                              'return_bytes=%s return_offset=%s, chunking %s: %d messages %s; one call with both flags gives %d: %s' % (
+                                  rb, ro, [len(c) for c in chunks][:12], len(got), [(g[0], g[2][4], g[2][5]) for g in got][:8],
+                                  len(want), [(w[0], w[2][4], w[2][5]) for w in ref[0]][:8]), replay)
+                return
+    if big:
+        return
     # delivery time, byte by byte
     chunks = [data[i:i + 1] for i in range(len(data))]
     calls, flat, err, _ = dc.run_decoder(chunks, m, opts=opts)
@@ -104,10 +187,33 @@ def run(ctx, budget):
         big = gen.frame(rng.choice([13120, 2999]), bytes(rng.randrange(256) for _ in range(n)), 1, 0)
         streams.append((big + gen.token(rng, 'V', seqs), 'LV'))
         streams.append((gen.token(rng, 'Z', seqs) + big + b'\x2e', 'ZLS'))
+    directed = []
+    # a dropped candidate (false sync with non-zero reserved bytes, a length over the limit - announced by junk or by a real
+    # message that is over THIS decoder's limit), then several messages that one call completes
+    for k in range(16 if ctx.thorough else 6):
+        seqs = {'n': rng.choice([0, 7, 0xFFFFFFFE])}
+        small = k % 3 == 2
+        pre = [gen.token(rng, 'R', seqs), gen.token(rng, 'H', seqs), gen.frame(2999, bytes(rng.randrange(256) for _ in range(150)), 1, 0)][k % 3]
+        if rng.random() < 0.5:
+            pre = gen.token(rng, 'J', seqs) + pre
+        if rng.random() < 0.5:
+            pre = pre + gen.token(rng, 'J', seqs)
+        ks = [rng.choice('ZU' if small else 'VVUZG') for _ in range(rng.choice([2, 3, 4]))]
+        directed.append((pre + b''.join(gen.token(rng, t, seqs) for t in ks), 'RHX'[k % 3] + ''.join(ks), 140 if small else 1 << 24))
+    # large messages: total size at / around 4096 and 65536 bytes, alone, last, and followed by another message
+    totals = [4096, 65536] + ([4095, 4097, 8192, 65535, 65537, 70001] if ctx.thorough else [rng.choice([4095, 4097, 8192, 65535, 65537])])
+    for tot in totals:
+        seqs = {'n': 11}
+        big = gen.frame(rng.choice([13120, 2999]), bytes(rng.randrange(256) for _ in range(tot - 24)), 10, 0)
+        for shape in (['LZ', 'ZLVL'] if not ctx.thorough else ['L', 'LZ', 'ZL', 'ZLVL']):
+            directed.append((b''.join(big if t == 'L' else gen.token(rng, t, seqs) for t in shape), shape, 1 << 24))
     for r in fv.corpus('C05') + fv.corpus('C04'):      # regression corpus first
         if 'stream' in r:
             one_stream(ctx, bytes.fromhex(r['stream']), 'corpus', r.get('max_payload', 1 << 24), lines, pending)
             ctx.count('corpus_cases')
+    for data, kinds, m in directed:
+        ctx.count('directed_streams')
+        one_stream(ctx, data, kinds, m, lines, pending, directed=True)
     for data, kinds in streams:
         for t in kinds:
             ctx.count('token_' + t)
@@ -128,8 +234,13 @@ def search(ctx):
 def check(ctx):
     ctx.cov['rule'] = ('streams of 1-6 tokens (valid messages of every registered class, length-inferred payloads, wrappers, '
                        'corrupted/truncated messages, false headers, junk); per stream: one call, one byte per call, random '
-                       'partitions, 24- and 7-byte chunks and, for short streams, every (prefix, rest) pair; compared: '
-                       'offsets, raw bytes, header fields, decoded payload field values and the final decoder state; '
+                       'partitions, 24- and 7-byte chunks, one message per call and chunk ends one byte before / after every '
+                       'message end and, for short streams, every (prefix, rest) pair; directed streams: a dropped candidate '
+                       '(non-zero reserved bytes / over-size length) followed by 2-4 messages, messages of 4096 / 65536 bytes '
+                       '(+-1) alone, last and followed by others; every return_bytes / return_offset setting; compared: '
+                       'offsets, raw bytes, header fields, decoded payload field values AS HELD WHEN EACH CALL RETURNED and the '
+                       'final decoder state; every returned header / payload / raw-bytes object is read again after every later '
+                       'call (must be unchanged) and no mutable object may be handed out twice or be the argument; '
                        'non-trivial = at least one message returned; distinct = distinct chunk list')
     ctx.assumptions += ['payload field values are compared on the implementation between chunkings and against the class\'s own '
                         'unpack of exactly the message bytes (the Lean model carries offsets/lengths/state, not fields)']
@@ -146,5 +257,6 @@ def replay(ctx, path):
     obj = json.load(open(path))
     r = obj['input']
     lines, pending = [], []
-    one_stream(ctx, bytes.fromhex(r['stream']), r.get('tokens', ''), r['max_payload'], lines, pending, opts=r.get('options', 'random'))
+    one_stream(ctx, bytes.fromhex(r['stream']), r.get('tokens', ''), r['max_payload'], lines, pending, opts=r.get('options', 'random'),
+               directed=r.get('directed', False))
     return fv.finish(ctx, 'proof', None)
